@@ -2,9 +2,11 @@
    the source-keyed helpers, the reachable-state invariant, and the single-process theorems used by
    Properties/C03.v and C04.v.  All statements quantify over ALL label sequences the model accepts
    (equivalently: over all events and all oracle choices of [fstep]). *)
-From Coq Require Import List NArith Arith Bool Lia.
-From Charon Require Import Common.Quorum Qbft.Model.
+From Coq Require Import List NArith Arith Bool Lia Sorted.
+From Charon Require Import Common.Quorum Qbft.Model Qbft.Monitor.
 Import ListNotations.
+Set Warnings "-unused-intro-pattern".
+
 
 (* ------------------------------------------------------------------------------------------ *)
 (* Reflection of the boolean equalities                                                        *)
@@ -251,3 +253,391 @@ Qed.
 
 Lemma filter_app_types : forall A (f : A -> bool) l1 l2, filter f (l1 ++ l2) = filter f l1 ++ filter f l2.
 Proof. intros. apply filter_app. Qed.
+
+(* ------------------------------------------------------------------------------------------ *)
+(* Case analysis of fstep                                                                      *)
+
+Ltac destr_hyp H :=
+  repeat match type of H with
+  | context[match ?x with _ => _ end] => destruct x eqn:?; try discriminate H
+  end.
+Ltac inv_eqs :=
+  repeat match goal with
+  | E : Some _ = Some _ |- _ => inversion E; subst; clear E
+  | E : (_, _) = (_, _) |- _ => inversion E; subst; clear E
+  end.
+Ltac crush_fstep H :=
+  unfold fstep in H; destr_hyp H;
+  repeat match goal with
+  | E : apply_rule _ _ _ _ _ _ = Some _ |- _ => unfold apply_rule in E; destr_hyp E
+  | E : timeout_body _ _ _ = Some _ |- _ => unfold timeout_body in E; destr_hyp E
+  | E : change_round _ _ _ = (_, _) |- _ => unfold change_round in E; destr_hyp E
+  end;
+  inv_eqs.
+
+(* mark only touches dedup *)
+Lemma mark_round : forall s rl r, round (mark s rl r) = round s. Proof. intros; unfold mark; destruct (is_dup s rl r); reflexivity. Qed.
+Lemma mark_input : forall s rl r, input (mark s rl r) = input s. Proof. intros; unfold mark; destruct (is_dup s rl r); reflexivity. Qed.
+Lemma mark_ppj : forall s rl r, ppj (mark s rl r) = ppj s. Proof. intros; unfold mark; destruct (is_dup s rl r); reflexivity. Qed.
+Lemma mark_prepR : forall s rl r, prepR (mark s rl r) = prepR s. Proof. intros; unfold mark; destruct (is_dup s rl r); reflexivity. Qed.
+Lemma mark_prepV : forall s rl r, prepV (mark s rl r) = prepV s. Proof. intros; unfold mark; destruct (is_dup s rl r); reflexivity. Qed.
+Lemma mark_prepJ : forall s rl r, prepJ (mark s rl r) = prepJ s. Proof. intros; unfold mark; destruct (is_dup s rl r); reflexivity. Qed.
+Lemma mark_cfr : forall s rl r, cfr (mark s rl r) = cfr s. Proof. intros; unfold mark; destruct (is_dup s rl r); reflexivity. Qed.
+Lemma mark_qcommit : forall s rl r, qcommit (mark s rl r) = qcommit s. Proof. intros; unfold mark; destruct (is_dup s rl r); reflexivity. Qed.
+Lemma mark_qcommitV : forall s rl r, qcommitV (mark s rl r) = qcommitV s. Proof. intros; unfold mark; destruct (is_dup s rl r); reflexivity. Qed.
+Lemma mark_buffer : forall s rl r, buffer (mark s rl r) = buffer s. Proof. intros; unfold mark; destruct (is_dup s rl r); reflexivity. Qed.
+Lemma mark_resends : forall s rl r, resends (mark s rl r) = resends s. Proof. intros; unfold mark; destruct (is_dup s rl r); reflexivity. Qed.
+Lemma mark_timer : forall s rl r, timer (mark s rl r) = timer s. Proof. intros; unfold mark; destruct (is_dup s rl r); reflexivity. Qed.
+Lemma mark_started : forall s rl r, started (mark s rl r) = started s. Proof. intros; unfold mark; destruct (is_dup s rl r); reflexivity. Qed.
+Lemma mark_dead : forall s rl r, dead (mark s rl r) = dead s. Proof. intros; unfold mark; destruct (is_dup s rl r); reflexivity. Qed.
+Lemma mark_decided : forall s rl r, decided (mark s rl r) = decided s. Proof. intros; unfold decided; rewrite mark_qcommit; reflexivity. Qed.
+Global Hint Rewrite mark_round mark_input mark_ppj mark_prepR mark_prepV mark_prepJ mark_cfr mark_qcommit mark_qcommitV
+  mark_buffer mark_resends mark_timer mark_started mark_dead mark_decided : st.
+
+Definition f_prep (s : state) : bmsg -> bool := f_trv Prepare (prepR s) (prepV s).
+Ltac st := unfold decided, f_prep in *; simpl in *; repeat (progress (autorewrite with st in *; simpl in *)).
+
+(* what membership of a rule in rules_of says *)
+Lemma rules_of_inv : forall p s m rl, existsb (rule_eqb rl) (rules_of p s m) = true ->
+  match rl with
+  | JustPrePrepare => ty (main m) = PrePrepare /\ round s <= rnd (main m)
+  | QPrepares => ty (main m) = Prepare /\ rnd (main m) = round s
+                 /\ qn p <= nsrc (f_trv Prepare (rnd (main m)) (val (main m))) (flat (buffer s))
+  | QCommits => ty (main m) = Commit /\ rnd (main m) = round s
+                 /\ qn p <= nsrc (f_trv Commit (rnd (main m)) (val (main m))) (flat (buffer s))
+  | JustDecided => ty (main m) = Decided
+  | FPlus1RC => ty (main m) = RoundChange /\ round s < rnd (main m)
+  | QRC => ty (main m) = RoundChange /\ rnd (main m) = round s /\ is_leader p (rnd (main m)) (self p) = true
+  | UnjustQRC => ty (main m) = RoundChange /\ rnd (main m) = round s
+  | Nothing => True
+  | RoundTimeout => False
+  end.
+Proof.
+  intros p s m rl H. unfold rules_of in H.
+  destruct (ty (main m)) eqn:Ety.
+  - destruct (rnd (main m) <? round s) eqn:E; simpl in H; rewrite orb_false_r in H; apply rule_eqb_eq in H; subst; auto.
+    apply Nat.ltb_ge in E. auto.
+  - destruct (negb (rnd (main m) =? round s)) eqn:E; [simpl in H; rewrite orb_false_r in H; apply rule_eqb_eq in H; subst; exact I|].
+    apply negb_false_iff, Nat.eqb_eq in E.
+    destruct (qn p <=? nsrc _ _) eqn:E2; simpl in H; rewrite orb_false_r in H; apply rule_eqb_eq in H; subst; auto.
+    apply Nat.leb_le in E2. auto.
+  - destruct (negb (rnd (main m) =? round s)) eqn:E; [simpl in H; rewrite orb_false_r in H; apply rule_eqb_eq in H; subst; exact I|].
+    apply negb_false_iff, Nat.eqb_eq in E.
+    destruct (qn p <=? nsrc _ _) eqn:E2; simpl in H; rewrite orb_false_r in H; apply rule_eqb_eq in H; subst; auto.
+    apply Nat.leb_le in E2. auto.
+  - destruct (rnd (main m) <? round s) eqn:E1; [simpl in H; rewrite orb_false_r in H; apply rule_eqb_eq in H; subst; exact I|].
+    destruct (round s <? rnd (main m)) eqn:E2.
+    + apply Nat.ltb_lt in E2.
+      destruct (fn p + 1 <=? _); simpl in H; rewrite orb_false_r in H; apply rule_eqb_eq in H; subst; auto.
+    + apply Nat.ltb_ge in E1. apply Nat.ltb_ge in E2. assert (Er : rnd (main m) = round s) by lia.
+      destruct (nsrc _ _ <? qn p); [simpl in H; rewrite orb_false_r in H; apply rule_eqb_eq in H; subst; exact I|].
+      rewrite existsb_app in H. apply orb_true_iff in H. destruct H as [H|H].
+      * destruct (may_ok p _ _); [|discriminate]. simpl in H. rewrite orb_false_r in H. apply rule_eqb_eq in H.
+        destruct (is_leader p (rnd (main m)) (self p)) eqn:El; subst; auto.
+      * destruct (may_fail p _ _); [|discriminate]. simpl in H. rewrite orb_false_r in H. apply rule_eqb_eq in H. subst; auto.
+  - simpl in H. rewrite orb_false_r in H. apply rule_eqb_eq in H. subst. reflexivity.
+Qed.
+
+(* ------------------------------------------------------------------------------------------ *)
+(* Reachable-state invariant                                                                   *)
+
+Record inv (p : params) (s : state) : Prop := mkinv {
+  i_timer : decided s = true -> timer s = None;
+  i_started : decided s = true -> started s = true;
+  i_qc : decided s = true -> qn p <= nsrc (f_trv Commit (round s) (qcommitV s)) (qcommit s);
+  i_prep : (prepJ s = [] /\ prepR s = 0 /\ prepV s = 0%N) \/ qn p <= nsrc (f_prep s) (prepJ s);
+  i_ppj : match ppj s with
+          | PNone => True
+          | PEmpty => round s = 1 /\ is_leader p 1 (self p) = true
+          | PQrc _ _ => is_leader p (round s) (self p) = true
+          end;
+  i_res : decided s = false -> resends s = [];
+  i_init : started s = false -> s = init
+}.
+
+Lemma inv_init : forall p, inv p init.
+Proof. intro p. constructor; simpl; auto; discriminate. Qed.
+
+Lemma decided_nonempty : forall s, decided s = true <-> qcommit s <> [].
+Proof. intro s. unfold decided. destruct (qcommit s); split; try congruence; auto. Qed.
+
+Ltac rule_facts :=
+  match goal with E : existsb (rule_eqb ?rl) (rules_of ?p ?s ?m) && _ = true |- _ =>
+    let Hr := fresh "Hr" in apply andb_true_iff in E; destruct E as [Hr _]; apply rules_of_inv in Hr; simpl in Hr end.
+Ltac started_fact :=
+  match goal with E : negb (started ?s) || dead ?s = false |- _ =>
+    let Hst := fresh "Hst" in let Hdd := fresh "Hdd" in
+    apply orb_false_iff in E; destruct E as [Hst Hdd]; apply negb_false_iff in Hst end.
+
+Lemma inv_fstep : forall p s e o s' outs, 1 <= nodes p ->
+  inv p s -> fstep p s e o = Some (s', outs) -> inv p s'.
+Proof.
+  intros p s e o s' outs Hn [I1 I2 I3 I4 I5 I6 I7] H.
+  pose proof (quorum_pos (nodes p) Hn) as Hq. fold (qn p) in Hq.
+  destruct e.
+  - (* start *) crush_fstep H; apply orb_false_iff in Heqb; destruct Heqb as [Hst Hdd]; rewrite (I7 Hst) in *;
+      constructor; simpl; auto; try discriminate.
+  - crush_fstep H; constructor; st; auto; try discriminate; try congruence.
+    all: try (match goal with E : ppj _ = _ |- _ => rewrite E end; auto).
+    all: try (intro Hx; apply I7 in Hx; rewrite Hx in *; discriminate).
+  - crush_fstep H.
+    all: try rule_facts.
+    all: started_fact.
+    all: constructor; st; auto; try discriminate; try congruence.
+    all: try (match goal with E : ppj _ = _ |- _ => rewrite E end; auto).
+    all: try (intro Hx; apply I7 in Hx; rewrite Hx in *; discriminate).
+    all: try (right; destruct Hr as [_ [Hr1 Hr2]]; rewrite <- Hr1; rewrite nsrc_dedupb_filter; exact Hr2).
+    all: try (intros _; destruct Hr as [_ [Hr1 Hr2]]; rewrite <- ?Hr1;
+              match goal with E : pick_ok _ _ _ = true |- _ => rewrite (pick_ok_nsrc _ _ _ E); exact Hr2 end).
+    all: try (destruct Hr as [_ [Hr1 Hr2]]; rewrite <- Hr1; exact Hr2).
+    all: try (intros _; apply negb_false_iff in Heqb1; unfold justified in Heqb1; rewrite Hr in Heqb1;
+              unfold justified_decided in Heqb1; apply Nat.leb_le in Heqb1;
+              try (match goal with E : (round _ =? rnd _) = true |- _ => apply Nat.eqb_eq in E; rewrite E end); exact Heqb1).
+  - crush_fstep H. all: started_fact. all: constructor; st; auto; try discriminate; try congruence.
+    all: intro Hd; specialize (I1 Hd); discriminate.
+Qed.
+
+(* ------------------------------------------------------------------------------------------ *)
+(* The single-process monitor of C03 holds on every accepted label sequence                    *)
+
+Definition ghost_of (s : state) : g3 := mkg3 (decided s) (resends s).
+
+Lemma run_inv : forall p ls s, 1 <= nodes p -> run p init ls = Some s -> inv p s.
+Proof.
+  intros p ls s Hn H. eapply (run_invariant p (inv p)); [|apply inv_init|exact H].
+  intros. eapply inv_fstep; eassumption.
+Qed.
+
+Lemma fstep_mon3 : forall p s l o s', 1 <= nodes p -> inv p s ->
+  fstep p s (event_of l) o = Some (s', label_outs l) ->
+  check3 p (ghost_of s) l = true /\ ghost_of s' = gstep3 (ghost_of s) l.
+Proof.
+  intros p s l o s' Hn [I1 I2 I3 I4 I5 I6 I7] H.
+  pose proof (quorum_pos (nodes p) Hn) as Hq. fold (qn p) in Hq.
+  unfold check3, gstep3, ghost_of.
+  destruct l as [outs|v outs|m c outs|outs]; simpl in H; simpl label_outs.
+  - crush_fstep H; apply orb_false_iff in Heqb; destruct Heqb as [Hst Hdd]; rewrite (I7 Hst); simpl; auto.
+  - crush_fstep H; st; destruct (qcommit s) eqn:Hqc; simpl; auto.
+  - crush_fstep H.
+    all: try rule_facts.
+    all: st.
+    all: try (destruct (qcommit s) eqn:Hqc; try discriminate; simpl; auto).
+    all: try (rewrite Heqb0; auto).
+    1: { (* DECIDED re-broadcast *)
+      rewrite !andb_true_iff in Heqb1. destruct Heqb1 as [[H1 H2] H3].
+      unfold allow_resend in H3. destruct (resend_get (resends s) (src (main m))) as [lr cnt] eqn:Er.
+      apply andb_true_iff in H3. destruct H3 as [H3 H4]. apply negb_true_iff in H3, H4.
+      apply Nat.leb_gt in H3. apply Nat.leb_gt in H4. simpl.
+      rewrite Nat.eqb_refl, H1, H2. simpl. split; [|reflexivity].
+      apply andb_true_iff. split; apply Nat.ltb_lt; assumption. }
+    all: try (destruct Hr as [_ [Hr1 Hr2]];
+      assert (Hb : qn p <= nsrc (f_trv Commit (rnd (main m)) (val (main m))) (o_just o))
+        by (rewrite (pick_ok_nsrc _ _ _ Heqb4); exact Hr2);
+      (split; [apply Nat.leb_le; exact Hb|]);
+      destruct (o_just o) eqn:Ej; [exfalso; unfold nsrc in Hb; simpl in Hb; lia | reflexivity]).
+    all: try (apply negb_false_iff in Heqb1; unfold justified in Heqb1; rewrite Hr in Heqb1;
+      unfold justified_decided in Heqb1;
+      (split; [exact Heqb1|]); apply Nat.leb_le in Heqb1;
+      destruct (just m) eqn:Ej; [exfalso; unfold nsrc in Heqb1; simpl in Heqb1; lia | reflexivity]).
+  - crush_fstep H. all: st.
+    all: destruct (qcommit s) eqn:Hqc; [simpl; auto | specialize (I1 eq_refl); discriminate].
+Qed.
+Lemma run_mon3_from : forall p ls s s', 1 <= nodes p -> inv p s -> run p s ls = Some s' ->
+  mon3_from p (ghost_of s) ls = true.
+Proof.
+  intros p. induction ls as [|l ls IH]; simpl; intros s s' Hn Hi H; [reflexivity|].
+  destruct (step p s l) as [s1|] eqn:E; [|discriminate].
+  apply step_fstep in E.
+  destruct (fstep_mon3 p s l _ s1 Hn Hi E) as [Hc Hg].
+  rewrite Hc. simpl. rewrite <- Hg. eapply IH; [assumption | eapply inv_fstep; eassumption | eassumption].
+Qed.
+
+Theorem run_mon3 : forall p ls s, 1 <= nodes p -> run p init ls = Some s -> mon3 p ls = true.
+Proof. intros p ls s Hn H. exact (run_mon3_from p ls init s Hn (inv_init p) H). Qed.
+
+(* ---- readings of the monitor ---- *)
+
+Definition decs (ls : list label) : list (N * nat * list bmsg) := flat_map (fun l => decides_of (label_outs l)) ls.
+
+Lemma check3_decided_no_decide : forall p g l, g_dec g = true -> check3 p g l = true -> decides_of (label_outs l) = [].
+Proof.
+  intros p g l Hd H. unfold check3 in H. rewrite Hd in H.
+  destruct l as [outs|v outs|m c outs|outs]; try discriminate; simpl.
+  - destruct outs as [|o [|o2 r]]; try reflexivity; destruct o; try discriminate; reflexivity.
+  - destruct outs as [|o [|o2 r]]; try reflexivity; destruct o; try discriminate; reflexivity.
+Qed.
+
+Lemma gstep3_decided : forall g l, g_dec g = true -> g_dec (gstep3 g l) = true.
+Proof.
+  intros g l Hd. unfold gstep3. rewrite Hd. destruct l; try assumption.
+  destruct outs as [|o [|o2 r]]; try assumption. reflexivity.
+Qed.
+
+Lemma mon3_decided_no_decide : forall p ls g, g_dec g = true -> mon3_from p g ls = true -> decs ls = [].
+Proof.
+  intros p. induction ls as [|l ls IH]; simpl; intros g Hd H; [reflexivity|].
+  apply andb_true_iff in H. destruct H as [H1 H2].
+  rewrite (check3_decided_no_decide p g l Hd H1). simpl.
+  eapply IH; [|eassumption]. apply gstep3_decided. assumption.
+Qed.
+
+Lemma mon3_decide_once_from : forall p ls g, mon3_from p g ls = true -> length (decs ls) <= 1.
+Proof.
+  intros p. induction ls as [|l ls IH]; simpl; intros g H; [lia|].
+  apply andb_true_iff in H. destruct H as [H1 H2].
+  destruct (g_dec g) eqn:Hd.
+  - rewrite (check3_decided_no_decide p g l Hd H1). simpl. eapply IH; eassumption.
+  - unfold check3 in H1. rewrite Hd in H1. unfold gstep3 in H2. rewrite Hd in H2.
+    destruct (decides_of (label_outs l)) as [|d [|d2 r]] eqn:E.
+    + simpl. eapply IH; eassumption.
+    + simpl in H2. rewrite (mon3_decided_no_decide p ls _ (eq_refl : g_dec (mkg3 true (g_res g)) = true) H2). simpl. lia.
+    + destruct d as [[v r0] qc]. discriminate.
+Qed.
+
+Lemma mon3_backed_from : forall p ls g, mon3_from p g ls = true ->
+  forall v r qc, In (v, r, qc) (decs ls) -> qn p <= nsrc (f_trv Commit r v) qc.
+Proof.
+  intros p. induction ls as [|l ls IH]; simpl; intros g H v r qc Hin; [contradiction|].
+  apply andb_true_iff in H. destruct H as [H1 H2].
+  apply in_app_or in Hin. destruct Hin as [Hin|Hin]; [|eapply IH; eassumption].
+  destruct (g_dec g) eqn:Hd.
+  - rewrite (check3_decided_no_decide p g l Hd H1) in Hin. contradiction.
+  - unfold check3 in H1. rewrite Hd in H1.
+    destruct (decides_of (label_outs l)) as [|d [|d2 r1]] eqn:E; [contradiction| |destruct d as [[? ?] ?]; discriminate].
+    destruct d as [[v0 r0] qc0]. destruct Hin as [Hin|[]]. inversion Hin; subst. apply Nat.leb_le. exact H1.
+Qed.
+
+Lemma mon3_from_app : forall p a b g, mon3_from p g (a ++ b) = mon3_from p g a && mon3_from p (ghost3_after g a) b.
+Proof.
+  intros p. induction a as [|l a IH]; simpl; intros b g; [reflexivity|].
+  rewrite IH. apply andb_assoc.
+Qed.
+
+Lemma ghost3_after_decided : forall ls g, g_dec g = true -> g_dec (ghost3_after g ls) = true.
+Proof. induction ls as [|l ls IH]; simpl; intros g H; [assumption|]. apply IH. apply gstep3_decided. assumption. Qed.
+
+Lemma ghost3_after_decs : forall ls g, decs ls <> [] -> g_dec (ghost3_after g ls) = true.
+Proof.
+  induction ls as [|l ls IH]; simpl; intros g H; [contradiction|].
+  destruct (g_dec g) eqn:Hd; [apply ghost3_after_decided; apply gstep3_decided; assumption|].
+  destruct (decides_of (label_outs l)) as [|d r] eqn:E.
+  - simpl in H. apply IH. assumption.
+  - apply ghost3_after_decided. unfold gstep3. rewrite Hd, E. reflexivity.
+Qed.
+
+Definition post_decision_label (p : params) (l : label) : Prop :=
+  match l with
+  | LRecv m _ outs =>
+      outs = [] \/
+      exists b J, outs = [Bcast b J] /\ ty b = Decided /\ src b = self p
+                  /\ ty (main m) = RoundChange /\ src (main m) <> self p
+  | LInput _ outs =>
+      outs = [] \/ (exists w, outs = [Exit w]) \/ exists b J, outs = [Bcast b J] /\ ty b = PrePrepare
+  | _ => False
+  end.
+
+Lemma check3_post_decision : forall p g l, g_dec g = true -> check3 p g l = true -> post_decision_label p l.
+Proof.
+  intros p g l Hd H. unfold check3 in H. rewrite Hd in H.
+  destruct l as [outs|v outs|m c outs|outs]; try discriminate; simpl.
+  - destruct outs as [|o [|o2 r]]; [left; reflexivity| |destruct o; discriminate].
+    destruct o; try discriminate.
+    + right; right. exists b, j. split; [reflexivity|]. apply mtype_eqb_eq. exact H.
+    + right; left. eexists; reflexivity.
+  - destruct outs as [|o [|o2 r]]; [left; reflexivity| |destruct o; discriminate].
+    destruct o; try discriminate. right. exists b, j.
+    rewrite !andb_true_iff in H. destruct H as [[[[[H1 H2] H3] H4] _] _].
+    apply mtype_eqb_eq in H1. apply Nat.eqb_eq in H2. apply mtype_eqb_eq in H3.
+    apply negb_true_iff, Nat.eqb_neq in H4. auto.
+Qed.
+
+Lemma mon3_post_decision : forall p pre l post,
+  mon3 p (pre ++ l :: post) = true -> decs pre <> [] -> post_decision_label p l.
+Proof.
+  intros p pre l post H Hd. unfold mon3 in H. rewrite mon3_from_app in H.
+  apply andb_true_iff in H. destruct H as [_ H]. simpl in H. apply andb_true_iff in H. destruct H as [H _].
+  eapply check3_post_decision; [|exact H]. apply ghost3_after_decs. assumption.
+Qed.
+
+(* ---- bounded DECIDED re-broadcast ---- *)
+
+Definition is_nil {A} (l : list A) : bool := match l with [] => true | _ => false end.
+
+(* rounds of the ROUND-CHANGE messages of source x that were answered (after the decision) *)
+Fixpoint triggers (x : nat) (dec : bool) (ls : list label) : list nat :=
+  match ls with
+  | [] => []
+  | l :: r =>
+      (if dec then match l with
+                   | LRecv m _ [_] => if src (main m) =? x then [rnd (main m)] else []
+                   | _ => []
+                   end
+       else [])
+      ++ triggers x (dec || negb (is_nil (decides_of (label_outs l)))) r
+  end.
+
+Lemma resend_get_set_same : forall l k v, resend_get (resend_set l k v) k = v.
+Proof.
+  induction l as [|[k0 w] l IH]; simpl; intros k v.
+  - rewrite Nat.eqb_refl. reflexivity.
+  - destruct (k0 =? k) eqn:E; simpl; rewrite E; [reflexivity | apply IH].
+Qed.
+
+Lemma resend_get_set_other : forall l k k' v, k <> k' -> resend_get (resend_set l k v) k' = resend_get l k'.
+Proof.
+  induction l as [|[k0 w] l IH]; simpl; intros k k' v Hne.
+  - destruct (k =? k') eqn:E; [apply Nat.eqb_eq in E; contradiction | reflexivity].
+  - destruct (k0 =? k) eqn:E; simpl.
+    + apply Nat.eqb_eq in E. subst. destruct (k =? k') eqn:E2; [apply Nat.eqb_eq in E2; contradiction | reflexivity].
+    + destruct (k0 =? k'); [reflexivity | apply IH; assumption].
+Qed.
+
+Lemma gstep3_dec : forall p g l, check3 p g l = true ->
+  g_dec (gstep3 g l) = g_dec g || negb (is_nil (decides_of (label_outs l))).
+Proof.
+  intros p g l H. destruct (g_dec g) eqn:Hd.
+  - rewrite gstep3_decided by assumption. reflexivity.
+  - unfold gstep3. rewrite Hd. destruct (decides_of (label_outs l)); simpl; [exact Hd | reflexivity].
+Qed.
+
+Lemma mon3_triggers_from : forall p x ls g, mon3_from p g ls = true ->
+  snd (resend_get (g_res g) x) <= maxDecidedResends ->
+  let T := triggers x (g_dec g) ls in
+  Forall (fun r => fst (resend_get (g_res g) x) < r) T /\ StronglySorted lt T
+  /\ snd (resend_get (g_res g) x) + length T <= maxDecidedResends.
+Proof.
+  intros p x. induction ls as [|l ls IH]; intros g H Hc; simpl.
+  - repeat split; [constructor | constructor | lia].
+  - simpl in H. apply andb_true_iff in H. destruct H as [H1 H2].
+    rewrite <- (gstep3_dec p g l H1).
+    destruct (g_dec g) eqn:Hd.
+    + unfold check3 in H1. rewrite Hd in H1.
+      specialize (IH (gstep3 g l) H2). unfold gstep3 in IH |- *. rewrite Hd in IH |- *.
+      destruct l as [outs|v outs|m c outs|outs]; try discriminate.
+      * simpl. apply IH; assumption.
+      * destruct outs as [|o [|o2 r]].
+        -- simpl. apply IH; assumption.
+        -- destruct o; try discriminate.
+           rewrite !andb_true_iff in H1. destruct H1 as [[_ H5] H6].
+           apply Nat.ltb_lt in H5. apply Nat.ltb_lt in H6.
+           simpl in IH |- *.
+           destruct (src (main m) =? x) eqn:Ex.
+           ++ apply Nat.eqb_eq in Ex. subst x. rewrite resend_get_set_same in IH. simpl in IH.
+              destruct IH as [F1 [F2 F3]]; [lia|]. simpl.
+              repeat split.
+              ** constructor; [assumption|]. eapply Forall_impl; [|exact F1]. simpl. intros; lia.
+              ** constructor; assumption.
+              ** lia.
+           ++ apply Nat.eqb_neq in Ex. rewrite resend_get_set_other in IH by assumption. simpl. apply IH. assumption.
+        -- destruct o; discriminate.
+    + unfold check3 in H1. rewrite Hd in H1. simpl.
+      specialize (IH (gstep3 g l) H2). unfold gstep3 in IH |- *. rewrite Hd in IH |- *.
+      destruct (decides_of (label_outs l)); simpl in *; apply IH; assumption.
+Qed.
+
+Theorem mon3_resend_bounded : forall p x ls, mon3 p ls = true ->
+  StronglySorted lt (triggers x false ls) /\ length (triggers x false ls) <= maxDecidedResends.
+Proof.
+  intros p x ls H. destruct (mon3_triggers_from p x ls g3_init H) as [_ [H2 H3]]; simpl; [unfold maxDecidedResends; lia|].
+  split; [exact H2 | simpl in H3; exact H3].
+Qed.
